@@ -325,6 +325,120 @@ def stopped_task(chk, parallel):
     return msg
 
 
+_DELIVERY_DRIVER = r"""
+import os, sys, time
+target_file, target_line, go_file, pid_file = sys.argv[1], int(sys.argv[2]), sys.argv[3], sys.argv[4]
+fired = [False]
+
+def _gone(pid):
+    try:
+        st = open('/proc/%d/stat' % pid).read().rsplit(')', 1)[1].split()[0]
+        return False if st else True
+    except OSError:
+        return True          # reaped: the SIGCHLD handler has run and recorded the exit
+
+def local(frame, event, arg):
+    if event == 'line' and not fired[0] and frame.f_lineno == target_line and os.path.exists(pid_file):
+        try:
+            pid = int(open(pid_file).read().strip())
+        except ValueError:
+            return local
+        fired[0] = True
+        open(go_file, 'w').close()                 # the task sees the file and exits with status 0
+        deadline = time.time() + 10
+        while time.time() < deadline and not _gone(pid):
+            time.sleep(0.005)                      # Python-level signal handlers run here, between bytecodes
+        open(go_file + '.delivered', 'w').write('%s' % _gone(pid))
+    return local
+
+def tracer(frame, event, arg):
+    return local if frame.f_code.co_filename.endswith(target_file) else None
+
+sys.settrace(tracer)
+sys.argv = ['cond'] + sys.argv[5:]
+import conductor.__main__ as m
+m.main()
+"""
+
+
+def _consumer_lines():
+    """(file suffix, line) for every line of the code that CONSUMES recorded exits: the methods of SigchldHelper other
+    than the signal handler itself, and the waiting / polling methods of the executor's in-flight table"""
+    import ast
+
+    out = []
+    for rel, cls, keep in (("conductor/utils/sigchld.py", "SigchldHelper", lambda n: True), ("conductor/execution/executor.py", "_InflightOperations", lambda n: n.startswith(("wait", "poll", "has_", "_extract", "take", "pop")))):
+        path = os.path.join(SRC, rel)
+        tree = ast.parse(open(path, encoding="utf-8").read())
+        handlers = set()
+        for node in ast.walk(tree):      # whatever is installed with signal.signal(SIGCHLD, X) is the handler
+            if isinstance(node, ast.Call) and ast.unparse(node.func) == "signal.signal" and len(node.args) == 2 and "SIGCHLD" in ast.unparse(node.args[0]):
+                handlers.add(ast.unparse(node.args[1]).split(".")[-1])
+        for node in tree.body:
+            if isinstance(node, ast.ClassDef) and node.name == cls:
+                for f in node.body:
+                    if isinstance(f, ast.FunctionDef) and f.name not in handlers and f.name not in ("__init__", "instance", "track") and keep(f.name):
+                        lines = sorted({n.lineno for st in f.body for n in ast.walk(st) if isinstance(n, ast.stmt)})
+                        out.extend((rel, ln, f.name) for ln in lines)
+    return out
+
+
+def exit_delivered_before_every_line(chk, tier):
+    """No exit is lost WHEREVER it arrives: x depends on a and b (parallel, -j 2); a exits after 0.4 s; b runs until told.
+    For every line of the code that consumes recorded exits (SigchldHelper's methods other than the handler, the waiting
+    methods of the executor's in-flight table -- enumerated from the sources of the tree under test, nothing of Conductor is
+    patched), one real `cond run` is traced, and the first time that line is about to run while b is alive, b is made to exit
+    and the run waits right there until Conductor's own SIGCHLD handler has reaped it.  The run must end with status 0 within
+    the time limit, b completed, x executed exactly once.  (Seed C09/l: `exited = list(self._returncodes);
+    self._returncodes.clear()` lost an exit recorded between the two statements; `cond run` then slept for ever.)"""
+    import concurrent.futures
+
+    points = _consumer_lines()
+    if not points:
+        return "harness: no line of exit-consuming code was found (the classes were renamed?)"
+    if tier == "quick" and len(points) > 40:
+        points = points[:40]
+
+    def one(pt):
+        rel, line, fn = pt
+        root = implrun.make_project({"COND": ""})
+        log = os.path.join(root, "events.log")
+        go = os.path.join(root, "go")
+        pidf = os.path.join(root, "b.pid")
+        open(os.path.join(root, "COND"), "w").write(
+            'run_command(name="a", run="sleep 0.4; echo a >> %s", parallelizable=True)\n' % log
+            + 'run_command(name="b", run="echo $$ > %s; while [ ! -e %s ]; do sleep 0.02; done; echo b >> %s", parallelizable=True)\n' % (pidf, go, log)
+            + 'run_command(name="x", run="echo x >> %s", deps=[":a", ":b"])\n' % log)
+        drv = os.path.join(os.path.dirname(root), "driver.py")
+        open(drv, "w").write(_DELIVERY_DRIVER)
+        p = subprocess.Popen([PY, drv, rel, str(line), go, pidf, "run", "//:x", "-j", "2"], cwd=root, env=dict(os.environ, PYTHONPATH=SRC), stdout=subprocess.PIPE, stderr=subprocess.PIPE,
+                             start_new_session=True)
+        # a line that is never reached while b runs: release b after a while so that the run can end
+        t0 = time.time()
+        while p.poll() is None and time.time() - t0 < 3.0:
+            time.sleep(0.05)
+        if p.poll() is None and not os.path.exists(go):
+            open(go, "w").close()
+        rc, text, timed_out = _finish(p, 25)
+        delivered = os.path.exists(go + ".delivered")
+        ran = open(log).read().split() if os.path.exists(log) else []
+        if timed_out:
+            return (pt, delivered, "cond run did not terminate within 25 s after b's exit was delivered before %s:%d (%s); tasks that ran: %r" % (rel, line, fn, ran))
+        if rc != 0 or sorted(ran) != ["a", "b", "x"]:
+            return (pt, delivered, "exit status %s, tasks that ran %r (expected a, b and x once each) after b's exit was delivered before %s:%d (%s): %s" % (rc, ran, rel, line, fn, text[-200:]))
+        return (pt, delivered, None)
+
+    with concurrent.futures.ThreadPoolExecutor(max_workers=8) as ex:
+        results = list(ex.map(one, points))
+    n_delivered = sum(1 for _pt, d, _m in results if d)
+    chk.count("reaper", "exit delivered before a line of the consuming code", n_delivered)
+    chk.coverage["evaluations"] += len(results)
+    bad = [m for _pt, _d, m in results if m]
+    if n_delivered == 0 and not bad:
+        return "harness: no delivery point was reached in %d traced runs" % len(results)
+    return bad[0] if bad else None
+
+
 def reaper_scenarios(chk, tier):
     scen = [("batch-exits-j2", lambda: batch_exits(chk, 2, 2)), ("batch-exits-j3-of-4", lambda: batch_exits(chk, 4, 3)),
             ("batch-exits-then-failed-launch-j3", lambda: batch_exits_then_failed_launch(chk, 3, 3)),
@@ -333,10 +447,11 @@ def reaper_scenarios(chk, tier):
             ("fast-exits", lambda: fast_exits(chk, 12 if tier == "quick" else 200)),
             ("many-fast-parallel", lambda: many_fast_parallel(chk, 3 if tier == "quick" else 30)),
             ("spawn-between-exit-and-sigchld", lambda: spawn_between_exit_and_sigchld(chk)),
-            ("stopped-task-sequential", lambda: stopped_task(chk, False)), ("stopped-task-j2", lambda: stopped_task(chk, True))]
+            ("stopped-task-sequential", lambda: stopped_task(chk, False)), ("stopped-task-j2", lambda: stopped_task(chk, True)),
+            ("exit-delivered-before-every-line", lambda: exit_delivered_before_every_line(chk, tier))]
     reps = 1 if tier == "quick" else 5
     for name, fn in scen:
-        for _ in range(reps if name not in ("fast-exits", "many-fast-parallel") else 1):
+        for _ in range(reps if name not in ("fast-exits", "many-fast-parallel", "exit-delivered-before-every-line") else 1):
             msg = fn()
             chk.coverage["evaluations"] += 1
             chk.count("reaper", name)
